@@ -51,7 +51,7 @@ PROPS = {
     },
     "C01": {
         "theorems": ["rollback_touches_only_tracked", "removal_order", "restore_order", "nothing_tracked_after"],
-        "streams": [{"name": "hist", "quick": ["-n", "400"], "thorough": ["-n", "6000"]}],
+        "streams": [{"name": "hist", "quick": ["-n", "900"], "thorough": ["-n", "8000"]}],
         "assumptions": HIST_ASSUME,
     },
     "C02": {
@@ -93,5 +93,15 @@ PROPS = {
         "theorems": ["forceBackup_shape", "forceBackup_untracked", "forceBackup_base_readonly_partial"],
         "streams": [{"name": "hist", "quick": ["-n", "300"], "thorough": ["-n", "5000"]}],
         "assumptions": HIST_ASSUME,
+    },
+    "C08": {
+        "theorems": ["backup_never_mutates_base", "failed_backup_blocks", "failed_backup_blocks_rename", "copy_leaves_tracking_untouched"],
+        "streams": [{"name": "faults", "quick": ["-n", "40"], "thorough": ["-n", "400"]}],
+        "assumptions": HIST_ASSUME + ["faults are injected by a wrapper around the backup filesystem that returns EIO without forwarding the call; the j-th occurrence of a call signature is addressed, so reordered read-only calls do not shift the plan"],
+    },
+    "C09": {
+        "theorems": ["rollback_total", "success_means_every_step_succeeded", "restoreFile_propagates_open_error", "restoreSymlink_propagates_lstat_error"],
+        "streams": [{"name": "faults", "quick": ["-n", "40"], "thorough": ["-n", "400"]}],
+        "assumptions": HIST_ASSUME + ["faults are injected on both filesystems incl. handle primitives (Read/Write/Close/Stat)"],
     },
 }
